@@ -121,7 +121,9 @@ func (s *MultipartReply) MarshalBinary() (data []byte, err error) {
 
 func (s *MultipartReply) UnmarshalBinary(data []byte) error {
 	err := s.Header.UnmarshalBinary(data)
-	n := s.Header.Len()
+	// The offset must not be a uint16: with a length field near 0xffff it wraps
+	// around instead of reaching the end and the loop below never terminates.
+	n := int(s.Header.Len())
 
 	s.Type = binary.BigEndian.Uint16(data[n:])
 	n += 2
@@ -129,7 +131,7 @@ func (s *MultipartReply) UnmarshalBinary(data []byte) error {
 	n += 2
 	n += 4 // for padding
 	var req []util.Message
-	for n < s.Header.Length {
+	for n < int(s.Header.Length) {
 		var repl util.Message
 		switch s.Type {
 		case MultipartType_Aggregate:
@@ -153,7 +155,7 @@ func (s *MultipartReply) UnmarshalBinary(data []byte) error {
 		if err != nil {
 			log.Printf("Error parsing stats reply")
 		}
-		n += repl.Len()
+		n += int(repl.Len())
 		req = append(req, repl)
 
 	}
